@@ -39,7 +39,19 @@ const (
 	maxFactsPerPredicate = 1 << 32
 	// Limit on the number of arguments a predicate can take.
 	maxArity = 1 << 10
+	// Limit on the length of a line, i.e. of one printed constant. The buffer
+	// of a scanner grows on demand up to this size.
+	maxLineLength = 1 << 30
 )
+
+// newLineScanner returns a scanner over the lines of r that accepts lines
+// longer than bufio.MaxScanTokenSize: the writer puts no bound on the printed
+// form of a constant (a long string, byte string or list).
+func newLineScanner(r io.Reader) *bufio.Scanner {
+	scanner := bufio.NewScanner(r)
+	scanner.Buffer(nil, maxLineLength)
+	return scanner
+}
 
 // SimpleColumn is a file format to store a knowledge base.
 //
@@ -154,7 +166,7 @@ func (s *SimpleColumnStore) GetFacts(query ast.Atom, cb func(ast.Atom) error) er
 	}
 	defer f.Close()
 
-	scanner := bufio.NewScanner(f)
+	scanner := newLineScanner(f)
 	for i := 0; i < toSkip; i++ {
 		if ok := scanner.Scan(); !ok {
 			return ErrCouldNotRead
@@ -236,7 +248,7 @@ func NewSimpleColumnStore(input func() (io.ReadCloser, error)) (*SimpleColumnSto
 		return nil, err
 	}
 	defer f.Close()
-	scanner := bufio.NewScanner(f)
+	scanner := newLineScanner(f)
 	preds, predFactCount, err := readHeader(scanner)
 	if err != nil {
 		return nil, err
@@ -457,7 +469,7 @@ func readHeader(scanner *bufio.Scanner) ([]ast.PredicateSym, []int, error) {
 
 // ReadInto reads contents in simplecolumn format into a fact store.
 func (sc SimpleColumn) ReadInto(r io.Reader, store FactStore) error {
-	scanner := bufio.NewScanner(r)
+	scanner := newLineScanner(r)
 
 	preds, predNumFacts, err := readHeader(scanner)
 	if err != nil {
